@@ -846,7 +846,8 @@ impl Rasn {
         };
         let name = self.to_rust_title_case(&tld.name);
         let anonymous_item = match seq_or_set_of.element_type.as_ref() {
-            ASN1Type::ElsewhereDeclaredType(_) => None,
+            // a constrained reference is a type of its own, like `Item ::= Ref (0..7)`
+            ASN1Type::ElsewhereDeclaredType(e) if e.constraints.is_empty() => None,
             n => Some(self.generate_type(ToplevelTypeDefinition {
                 parameterization: None,
                 comments: format!(
@@ -861,7 +862,7 @@ impl Rasn {
         }
         .unwrap_or_default();
         let member_type = match seq_or_set_of.element_type.as_ref() {
-            ASN1Type::ElsewhereDeclaredType(d) => {
+            ASN1Type::ElsewhereDeclaredType(d) if d.constraints.is_empty() => {
                 self.to_rust_qualified_type(d.module.as_deref(), &d.identifier)
             }
             _ => format_ident!("Anonymous{}", &name.to_string()).to_token_stream(),
